@@ -232,7 +232,8 @@ def run_case(case):
 
     def ev(form, orig, fn, semantic):
         e = {"form": form, "orig": orig, "back": dict(C.EMPTY), "exc": "none", "exact": True, "eq": True, "ok": True, "hints": [], "names": [], "g": 0,
-             "groups": ["serial"], "_strings": None, "eqok": True, "bits": False, "infeas": dict(H.NONE), "rounded": bool(d["wild"])}
+             "groups": ["serial"], "_strings": None, "eqok": True, "bits": False, "infeas": dict(H.NONE), "rounded": bool(d["wild"]),
+             "file": {"names_w": [], "names_r": [], "kinds_w": [], "kinds_r": []}}
         try:
             back, extra = fn()
             e["back"] = C.pcontract(back)
@@ -282,10 +283,38 @@ def run_case(case):
             return cs[0], {"bits": bool(machine_rep) and same_numbers(c0, cs[0])}
         return f
 
+    def multi(machine_rep):
+        """a file with SEVERAL entries: the contract under test among a second plain contract and (human form) a compound one, in an
+        order that depends on the case, under names that repeat on every other case -- the entries that come back are the entries written"""
+        def f():
+            from pacti.contracts import PolyhedralIoContractCompound
+
+            dup = case["id"] % 2 == 0
+            items = [("c", c4, "plain"), ("c" if dup else "d", c0, "plain")]
+            if not machine_rep:
+                k = PolyhedralIoContractCompound.from_strings(input_vars=["ki"], output_vars=["ko"], assumptions=[["ki <= 1"], ["-ki <= -2"]], guarantees=[["ko <= 1"]])
+                items.insert(case["id"] % 3, ("c" if dup and case["id"] % 4 == 0 else "k", k, "compound"))
+            if case["id"] % 5 == 0:
+                items = [items[-1]] + items[:-1]
+            path = os.path.join(tmpdir, "c10m-%d-%d-%s.json" % (os.getpid(), case["id"], machine_rep))
+            write_contracts_to_file([c for _, c, _ in items], [n for n, _, _ in items], path, machine_representation=machine_rep)
+            try:
+                cs, names = read_contracts_from_file(path)
+            finally:
+                os.remove(path)
+            kinds = ["compound" if isinstance(c, PolyhedralIoContractCompound) else "plain" for c in cs]
+            info = {"names_w": [n for n, _, _ in items], "names_r": [str(n) for n in names], "kinds_w": [k_ for _, _, k_ in items], "kinds_r": kinds}
+            pos = [j for j, it in enumerate(items) if it[1] is c0][0]
+            back = cs[pos] if pos < len(cs) and kinds[pos] == "plain" else c0
+            return back, {"file": info, "bits": bool(machine_rep) and same_numbers(c0, back)}
+        return f
+
     ev("machine-dict", p0, machine, False)
     ev("strings-exact", p4, strings, True)
     ev("file-human", p4, via_file(False), True)
     ev("file-machine", p0, via_file(True), True)
+    ev("file-human-multi", p4, multi(False), True)
+    ev("file-machine-multi", p0, multi(True), True)
     if case.get("only_event"):
         evs = evs[case["only_event"] - 1: case["only_event"]]
     return {"id": case["id"], "ev": evs}
